@@ -945,50 +945,38 @@ def shards_delta(shards, other_shards):
     """
     Yield shards1 with cviews that are the same as shards2 having canv = None.
     """
-    # pylint: disable=stop-iteration-return
-    other_shards_iter = iter(other_shards)
-    other_num_rows = other_cviews = None
-    done = other_done = 0
+    # where every cview of other_shards starts: (row, col) -> cview
+    other_starts = {}
+    shard_tail = []
+    row = 0
+    for num_rows, cviews in other_shards:
+        sbody = shard_body(cviews, shard_tail, False)
+        col = 0
+        for done_rows, _content_iter, cv in sbody:
+            if not done_rows:
+                other_starts[row, col] = cv
+            col += cv[2]
+        shard_tail = shard_body_tail(num_rows, sbody)
+        row += num_rows
+
+    shard_tail = []
+    row = 0
     for num_rows, cviews in shards:
-        if other_num_rows is None:
-            other_num_rows, other_cviews = next(other_shards_iter, (None, None))
-        while other_num_rows is not None and other_done < done:
-            other_done += other_num_rows
-            other_num_rows, other_cviews = next(other_shards_iter, (None, None))
-        if other_num_rows is None or other_done > done:
-            yield (num_rows, cviews)
-            done += num_rows
-            continue
-        # top-aligned shards, compare each cview
-        yield (num_rows, shard_cviews_delta(cviews, other_cviews))
-        other_done += other_num_rows
-        other_num_rows = None
-        done += num_rows
-
-
-def shard_cviews_delta(cviews, other_cviews):
-    # pylint: disable=stop-iteration-return
-    other_cviews_iter = iter(other_cviews)
-    other_cv = None
-    cols = other_cols = 0
-    for cv in cviews:
-        if other_cv is None:
-            other_cv = next(other_cviews_iter, None)
-        while other_cv is not None and other_cols < cols:
-            other_cols += other_cv[2]
-            other_cv = next(other_cviews_iter, None)
-        if other_cv is None or other_cols > cols:
-            yield cv
-            cols += cv[2]
-            continue
-        # top-left-aligned cviews, compare them
-        if cv[5] is other_cv[5] and cv[:5] == other_cv[:5]:
-            yield cv[:5] + (None,) + cv[6:]
-        else:
-            yield cv
-        other_cols += other_cv[2]
-        other_cv = None
-        cols += cv[2]
+        sbody = shard_body(cviews, shard_tail, False)
+        col = 0
+        new_cviews = []
+        for done_rows, _content_iter, cv in sbody:
+            if not done_rows:
+                other_cv = other_starts.get((row, col))
+                # the same view of the same canvas at the same place: unchanged
+                if other_cv is not None and cv[5] is other_cv[5] and cv[:5] == other_cv[:5]:
+                    new_cviews.append(cv[:5] + (None,) + cv[6:])
+                else:
+                    new_cviews.append(cv)
+            col += cv[2]
+        shard_tail = shard_body_tail(num_rows, sbody)
+        yield (num_rows, new_cviews)
+        row += num_rows
 
 
 def shard_body(cviews, shard_tail, create_iter: bool = True, iter_default=None):
@@ -997,7 +985,7 @@ def shard_body(cviews, shard_tail, create_iter: bool = True, iter_default=None):
     this shard and shard tail.
 
     If a canvas in cviews is None (eg. when unchanged from
-    shard_cviews_delta()) or if create_iter is False then no
+    shards_delta()) or if create_iter is False then no
     iterator is created for content_iter.
 
     iter_default is the value used for content_iter when no iterator
